@@ -274,6 +274,7 @@ def check_C15(ctx, replay=None):
     ng = NamedGen(rng, consts, arches)
     nbad = ndiff = 0
     reported = [0]
+    samples = []
     stats = dict(runs=0, invalid=0, valid=0, probes=0, outcomes={}, nontrivial=set(), kinds={}, recorded={}, lens=[])
 
     deferred = []      # differences without a failing input: reported only when no failing input was found at all
@@ -295,6 +296,8 @@ def check_C15(ctx, replay=None):
         stats["invalid"] += 1
         stats["kinds"]["invalid: " + label.split(" '")[0].split(' "')[0]] = stats["kinds"].get("invalid: " + label.split(" '")[0].split(' "')[0], 0) + 1
         r = box.run(case)
+        if len(samples) < 2:
+            samples.append(dict(invalid=label, file=list(case["file"])[:2], argv=[os.path.basename(a) for a in r["argv"]], exit=r["exit"], marker_lines=len(r["marker"])))
         problems = []
         if r["exit"] == 0:
             problems.append("exit status 0")
@@ -328,6 +331,9 @@ def check_C15(ctx, replay=None):
                 case = dict(file=("text", it["yaml"]), nnp=it["nnp"], uid=it["uid"], target="probe", probes=probes, extra_args=it.get("extra_args", []))
                 r = box.run(case)
                 t = parse_target_output(r["out"])
+                if len(samples) < 4:
+                    samples.append(dict(valid=it["kind"], file=it["yaml"][:400], argv=[os.path.basename(a) for a in r["argv"]], probes=probes[:2],
+                                        exit=r["exit"], marker=r["marker"], target_output=r["out"][:8]))
                 payload = dict(case=dict(case, label="valid policy", tokens=it["tokens"], events=[it["events"][i] for i in idxs], kind=it["kind"]),
                                policy_file=it["yaml"][:3000])
                 if len(r["marker"]) != 1:
@@ -457,7 +463,7 @@ def check_C15(ctx, replay=None):
         input_distribution=dict(cases=stats["kinds"], outcomes=stats["outcomes"], recorded=stats["recorded"],
                                 program_length=dict(min=min(stats["lens"]) if stats["lens"] else 0, max=max(stats["lens"]) if stats["lens"] else 0,
                                                     over_255=sum(1 for x in stats["lens"] if x > 255), over_1000=sum(1 for x in stats["lens"] if x > 1000))),
-        samples=[render_yaml(ng.policy("cond"))[:400]],
+        samples=samples,
     ))
     ctx.coverage["checker_cmd"] = ("coqc 8.16.1 (full .vo) on coq/theories + regenerated gen/ + coq/properties/SandboxInst.v (per-run proof, by case analysis over "
                                    "every outcome oracle, that the interpretation of the regenerated main() equals the reference behaviour) + LoaderInst.v + "
